@@ -51,7 +51,13 @@ def normD : DRes → DRes
     side only, i.e. demands that the decoder leaves zeros there). -/
 def normObs (o : RtObs) : RtObs := { o with dec := o.dec.map normD }
 
-def rtPredR (v r : VLA) (o : RtObs) : Bool := Rtp.Pred.C19.rt v r (normObs o)
+/-- The observation is normalised only when the INPUT carries junk in those fields (a value that cannot
+    round-trip in the first place).  For an input in normal form — zeros where no resolution is carried,
+    which is what a fresh decode produces — "yields an equal VLA, also when the receiving value was used
+    for an earlier decode" is taken literally: width / height / frame rate left over from an earlier
+    decode are a difference (seeds C19-r7-1, C19-r8-1). -/
+def rtPredR (v r : VLA) (o : RtObs) : Bool :=
+  if v = v.norm then Rtp.Pred.C19.rt v r o else Rtp.Pred.C19.rt v r (normObs o)
 
 theorem clearRes_idem (l : Layer) : l.clearRes.clearRes = l.clearRes := rfl
 
@@ -64,7 +70,10 @@ theorem norm_idem (v : VLA) : v.norm.norm = v.norm := by
 theorem rtPredR_of_rt (v r : VLA) (o : RtObs) :
     Rtp.Pred.C19.rt v r o = true → rtPredR v r o = true := by
   intro h
-  unfold rtPredR normObs
+  unfold rtPredR
+  split
+  · exact h
+  unfold normObs
   unfold Rtp.Pred.C19.rt at h ⊢
   split
   · rename_i hw
